@@ -185,6 +185,13 @@ func (x *Extractor) Paths(fn *ssa.Function, opts PathOpts) ([]*Path, error) {
 // given expressions (the arguments of a call that is not executed in line,
 // such as a deferred call).
 func (x *Extractor) PathsBound(fn *ssa.Function, args []*Expr, opts PathOpts) ([]*Path, error) {
+	return x.PathsBoundFV(fn, args, nil, opts)
+}
+
+// PathsBoundFV is PathsBound with the closure's captured variables bound as
+// well (fvs[i] describes fn.FreeVars[i], as in the Args of an OpClosure
+// expression).
+func (x *Extractor) PathsBoundFV(fn *ssa.Function, args, fvs []*Expr, opts PathOpts) ([]*Path, error) {
 	if opts.MaxPaths == 0 {
 		opts.MaxPaths = 20000
 	}
@@ -194,6 +201,11 @@ func (x *Extractor) PathsBound(fn *ssa.Function, args []*Expr, opts PathOpts) ([
 	for i, p := range fn.Params {
 		if i < len(args) && args[i] != nil {
 			c.params[p] = args[i]
+		}
+	}
+	for i, fv := range fn.FreeVars {
+		if i < len(fvs) && fvs[i] != nil {
+			c.fvs[fv] = fvs[i]
 		}
 	}
 	var out []*Path
@@ -238,7 +250,7 @@ func (s *pstate) clone() *pstate {
 }
 
 func (c *seeCtx) clone() *seeCtx {
-	n := &seeCtx{x: c.x, depth: c.depth, params: c.params, fvs: c.fvs, stack: c.stack, ps: c.ps, defAt: c.defAt, fn: c.fn,
+	n := &seeCtx{x: c.x, depth: c.depth, params: c.params, fvs: c.fvs, stack: c.stack, ps: c.ps, defAt: c.defAt, fn: c.fn, up: c.up,
 		active: map[ssa.Value]bool{}, memo: make(map[ssa.Value]*Expr, len(c.memo))}
 	if c.retAlias != nil {
 		n.retAlias = make(map[ssa.Value]map[int]*ssa.Alloc, len(c.retAlias))
@@ -370,6 +382,22 @@ func (pe *pathEnum) instrs(c *seeCtx, b *ssa.BasicBlock, i int, st *pstate, emit
 								stc.segs = append(stc.segs, cs)
 							}
 							emit(&Path{Atoms: stc.atoms, Blocks: stc.blocks, Cut: true, CutTo: cp.CutTo, CutFrom: cp.CutFrom, env: c, segs: stc.segs, cutEnv: cp.cutEnvOrEnv()})
+						}
+						if cp.Panic != nil {
+							// the helper panics on this path: so does the caller
+							stc := st.clone()
+							stc.atoms = append(stc.atoms, cp.Atoms...)
+							stc.blocks = append(stc.blocks, cp.Blocks...)
+							if k := len(stc.segs) - 1; k >= 0 {
+								stc.segs[k].to = next
+							}
+							for _, cs := range cp.segs {
+								if cs.env == nil {
+									cs.env = cp.env
+								}
+								stc.segs = append(stc.segs, cs)
+							}
+							emit(&Path{Atoms: stc.atoms, Blocks: stc.blocks, Panic: cp.Panic, env: c, segs: stc.segs})
 						}
 						return // callee panics on this path; not continued
 					}
